@@ -26,7 +26,7 @@ Lemma fold_vals opts : forall c k,
   mget (e_vals (fold_left apply_opt opts c)) k = match last_ctx opts k with Some v => Some v | None => mget (e_vals c) k end.
 Proof.
   induction opts as [|o opts IH]; intros c k; cbn [fold_left last_ctx]; [reflexivity|].
-  rewrite IH. destruct o as [k' v|p]; cbn [apply_opt e_vals].
+  rewrite IH. destruct o as [k' v|p sk]; cbn [apply_opt e_vals].
   - destruct (last_ctx opts k); [reflexivity|]. rewrite mget_mset. now destruct (String.eqb k k').
   - reflexivity.
 Qed.
@@ -34,7 +34,7 @@ Lemma fold_fmt opts : forall c,
   e_fmt (fold_left apply_opt opts c) = match last_fmt opts with Some p => Some p | None => e_fmt c end.
 Proof.
   induction opts as [|o opts IH]; intros c; cbn [fold_left last_fmt]; [reflexivity|].
-  rewrite IH. destruct o as [k' v|p]; cbn [apply_opt e_fmt]; [reflexivity|]. now destruct (last_fmt opts).
+  rewrite IH. destruct o as [k' v|p sk]; cbn [apply_opt e_fmt]; [reflexivity|]. now destruct (last_fmt opts).
 Qed.
 
 (** ctx.Get(k) is the value of the call's last WithCtxValue(k, _), nil when the call passed none:
@@ -46,10 +46,10 @@ Corollary ctx_value_ignores_recycled d1 d2 opts k : ctx_value d1 opts k = ctx_va
 Proof. now rewrite !ctx_value_is_last_option. Qed.
 
 Fixpoint mentions (opts : list eopt) (k : string) : bool :=
-  match opts with [] => false | OCtx k' _ :: r => String.eqb k k' || mentions r k | OFmt _ :: r => mentions r k end.
+  match opts with [] => false | OCtx k' _ :: r => String.eqb k k' || mentions r k | OFmt _ _ :: r => mentions r k end.
 Lemma last_ctx_none opts k : mentions opts k = false -> last_ctx opts k = None.
 Proof.
-  induction opts as [|[k' v|p] opts IH]; cbn; intros H; [reflexivity| |now apply IH].
+  induction opts as [|[k' v|p sk] opts IH]; cbn; intros H; [reflexivity| |now apply IH].
   apply orb_false_elim in H. destruct H as [H1 H2]. now rewrite IH, H1.
 Qed.
 Corollary ctx_value_other_keys_nil dirty opts k : mentions opts k = false -> ctx_value dirty opts k = None.
@@ -57,7 +57,7 @@ Proof. intros H. now rewrite ctx_value_is_last_option, last_ctx_none. Qed.
 
 Lemma last_ctx_app a b k : last_ctx (a ++ b) k = match last_ctx b k with Some v => Some v | None => last_ctx a k end.
 Proof.
-  induction a as [|[k' v|p] a IH]; cbn; [now destruct (last_ctx b k)| |exact IH].
+  induction a as [|[k' v|p sk] a IH]; cbn; [now destruct (last_ctx b k)| |exact IH].
   rewrite IH. destruct (last_ctx b k); [reflexivity|]. reflexivity.
 Qed.
 Corollary ctx_last_call_wins dirty before k v after :
@@ -72,7 +72,7 @@ Theorem call_fmt_is_last_option opts : call_fmt opts = last_fmt opts.
 Proof. unfold call_fmt, call_ctx. rewrite fold_fmt. cbn. now destruct (last_fmt opts). Qed.
 
 (** options of different kinds do not interfere; context values of different keys do not interfere *)
-Lemma last_ctx_skip_fmt a p b k : last_ctx (a ++ OFmt p :: b) k = last_ctx (a ++ b) k.
+Lemma last_ctx_skip_fmt a p sk b k : last_ctx (a ++ OFmt p sk :: b) k = last_ctx (a ++ b) k.
 Proof. rewrite !last_ctx_app. reflexivity. Qed.
 Lemma last_ctx_skip_other a k' v b k : k <> k' -> last_ctx (a ++ OCtx k' v :: b) k = last_ctx (a ++ b) k.
 Proof.
@@ -87,7 +87,7 @@ Theorem legacy_ctx_refuted :
 Proof. split; reflexivity. Qed.
 
 Example options_example :
-  ctx_value {| e_fmt := Some "X"; e_vals := [("k1", "old")] |} [OCtx "k8" "shared"; OCtx "k1" "a"; OFmt "F1:"; OCtx "k1" "b"; OFmt "F2:"] "k1" = Some "b"
-  /\ call_fmt [OCtx "k8" "shared"; OCtx "k1" "a"; OFmt "F1:"; OCtx "k1" "b"; OFmt "F2:"] = Some "F2:"
-  /\ ctx_value {| e_fmt := Some "X"; e_vals := [("k1", "old")] |} [OCtx "k8" "shared"] "k1" = None.
+  ctx_value {| e_fmt := Some ("X", None); e_vals := [("k1", "old")] |} [OCtx "k8" "shared"; OCtx "k1" "a"; OFmt "F1:" None; OCtx "k1" "b"; OFmt "F2:" (Some "required")] "k1" = Some "b"
+  /\ call_fmt [OCtx "k8" "shared"; OCtx "k1" "a"; OFmt "F1:" None; OCtx "k1" "b"; OFmt "F2:" (Some "required")] = Some ("F2:", Some "required")
+  /\ ctx_value {| e_fmt := Some ("X", None); e_vals := [("k1", "old")] |} [OCtx "k8" "shared"] "k1" = None.
 Proof. repeat split. Qed.
